@@ -151,6 +151,18 @@ def run(ctx):
                    "each source line is reported with exactly the bytes it produced (one entry, the same instruction)",
                    pb.loc(), "")
     chk.floor("instruction shapes checked against the reference encoding", n, 2000)
+    # the step before: a source line becomes the AST value of the same instruction with every operand in place (the clauses
+    # ast/* of the parser rule C03; nothing else of that rule is reported here)
+    from . import C03
+    orig_ob, orig_assume, orig_sample, orig_note = chk.ob, chk.assume, chk.sample, chk.note
+    chk.ob = lambda key, *a, **k: orig_ob(key, *a, **k) if str(key).startswith("ast/") else None
+    chk.assume = chk.sample = chk.note = lambda *a, **k: None
+    chk.prefix = "parse/"
+    try:
+        C03.run(ctx)
+    finally:
+        chk.prefix = ""
+        chk.ob, chk.assume, chk.sample, chk.note = orig_ob, orig_assume, orig_sample, orig_note
 
     # ---- the symbol table changes only where a name is defined ---------------------------------
     # (every instruction shape and every directive except .EQU, at a position equal to / different from
